@@ -4,6 +4,7 @@ import (
 	"fmt"
 	"go/token"
 	"go/types"
+	"strings"
 
 	"golang.org/x/tools/go/ssa"
 )
@@ -18,7 +19,7 @@ func (x *Exec) step(fr *Frame, st *State, in ssa.Instruction) {
 		p := x.asPtr(x.value(fr, i.X))
 		x.nilCheck(fr, st, p, i.Pos())
 		stt, _ := structOf(p.elemType(x))
-		np := Ptr{Base: p.Base, Root: p.Root, Fresh: p.Fresh}
+		np := Ptr{Base: p.Base, Root: p.Root, Fresh: p.Fresh, New: p.New}
 		np.Path = append(append([]Step{}, p.Path...), Step{Field: stt.Field(i.Field).Name()})
 		fr.vals[i] = np
 	case *ssa.Field:
@@ -38,6 +39,7 @@ func (x *Exec) step(fr *Frame, st *State, in ssa.Instruction) {
 	case *ssa.Store:
 		p := x.asPtr(x.value(fr, i.Addr))
 		x.nilCheck(fr, st, p, i.Pos())
+		x.codeAccess(fr, st, p, true, i.Pos())
 		x.store(st, p, x.coerce(x.value(fr, i.Val), p.elemType(x)))
 	case *ssa.Phi:
 		return
@@ -184,7 +186,7 @@ func (x *Exec) newRef(st *State) string {
 // alloc creates a zero-initialised object of type t.
 func (x *Exec) alloc(st *State, t types.Type, hint string) Value {
 	r := x.newRef(st)
-	p := Ptr{Base: r, Root: t, Fresh: true}
+	p := Ptr{Base: r, Root: t, Fresh: true, New: true}
 	x.zeroInit(st, t, p)
 	return p
 }
@@ -223,6 +225,9 @@ func (x *Exec) fillArray(st *State, el types.Type, key, base string, _ []string)
 }
 
 func (x *Exec) constArray(st *State, key, base, sort, zero string) {
+	saved := x.storeNew
+	x.storeNew = true
+	defer func() { x.storeNew = saved }()
 	l := x.leaf(key, 1, sort)
 	cur := x.heapGet(st, l)
 	inner := fmt.Sprintf("((as const (Array (_ BitVec 64) %s)) %s)", sort, zero)
@@ -239,7 +244,7 @@ func (x *Exec) indexAddr(fr *Frame, st *State, i *ssa.IndexAddr) Value {
 		if v.Off != bvLit(0, 64) {
 			off = "(bvadd " + v.Off + " " + idx + ")"
 		}
-		return Ptr{Base: v.Base, Root: types.NewSlice(v.Elem), Path: []Step{{Idx: off}}, Fresh: true}
+		return Ptr{Base: v.Base, Root: types.NewSlice(v.Elem), Path: []Step{{Idx: off}}, Fresh: true, Own: v.Own, New: v.New}
 	case Ptr: // pointer to array
 		x.nilCheck(fr, st, v, i.Pos())
 		at, ok := v.elemType(x).Underlying().(*types.Array)
@@ -247,7 +252,7 @@ func (x *Exec) indexAddr(fr *Frame, st *State, i *ssa.IndexAddr) Value {
 			x.fail("IndexAddr on pointer to %s", typeKey(v.elemType(x)))
 		}
 		x.safety(fr, st, "bounds", "index", "(bvult "+idx+" "+bvLit(uint64(at.Len()), 64)+")", i.Pos())
-		np := Ptr{Base: v.Base, Root: v.Root, Fresh: v.Fresh}
+		np := Ptr{Base: v.Base, Root: v.Root, Fresh: v.Fresh, New: v.New}
 		np.Path = append(append([]Step{}, v.Path...), Step{Idx: idx})
 		return np
 	}
@@ -283,6 +288,7 @@ func (x *Exec) unop(fr *Frame, st *State, i *ssa.UnOp) Value {
 		if _, isArr := p.elemType(x).Underlying().(*types.Array); isArr {
 			x.fail("load of array value at %s", x.pos(i.Pos()))
 		}
+		x.codeAccess(fr, st, p, false, i.Pos())
 		return x.nameValue(x.load(st, p), i.Name())
 	case token.NOT:
 		return Scalar{T: not(x.term(v)), Typ: i.Type()}
@@ -602,10 +608,13 @@ func (x *Exec) stringToBytes(st *State, s string, elem types.Type) Value {
 	l := x.leaf("[]uint8", 1, "(_ BitVec 8)")
 	cur := x.heapGet(st, l)
 	st.Heap["[]uint8"] = x.em.define("H.bytes", l.ArraySort(), "(store "+cur+" "+r+" (sarr "+s+"))")
+	saved := x.storeNew
+	x.storeNew = true
 	x.recordWrite("[]uint8", r, false)
+	x.storeNew = saved
 	n := x.em.define("slen", "(_ BitVec 64)", "(slen "+s+")")
 	x.em.assume("(bvule " + n + " " + maxCap + ")")
-	return SliceV{Base: r, Off: bvLit(0, 64), Len: n, Cap: n, Elem: elem}
+	return SliceV{Base: r, Off: bvLit(0, 64), Len: n, Cap: n, Elem: elem, New: true}
 }
 
 func (x *Exec) typeAssert(fr *Frame, st *State, i *ssa.TypeAssert) Value {
@@ -774,7 +783,7 @@ func (x *Exec) makeSlice(fr *Frame, st *State, i *ssa.MakeSlice) Value {
 	x.safety(fr, st, "alloc-bound", "makeslice", "(and (bvule "+n+" "+c+") (bvule "+c+" #x0000000080000000))", i.Pos())
 	r := x.newRef(st)
 	x.fillArray(st, el, rootKey(types.NewSlice(el)), r, nil)
-	return SliceV{Base: r, Off: bvLit(0, 64), Len: n, Cap: c, Elem: el}
+	return SliceV{Base: r, Off: bvLit(0, 64), Len: n, Cap: c, Elem: el, New: true}
 }
 
 func (x *Exec) sliceOp(fr *Frame, st *State, i *ssa.Slice) Value {
@@ -799,7 +808,7 @@ func (x *Exec) sliceOp(fr *Frame, st *State, i *ssa.Slice) Value {
 		if lo != z {
 			off = "(bvadd " + v.Off + " " + lo + ")"
 		}
-		r := SliceV{Base: v.Base, Off: off, Len: bvsub(hi, lo), Cap: bvsub(mx, lo), Elem: v.Elem}
+		r := SliceV{Base: v.Base, Off: off, Len: bvsub(hi, lo), Cap: bvsub(mx, lo), Elem: v.Elem, Own: v.Own, New: v.New}
 		return x.nameValue(r, i.Name())
 	case Ptr: // pointer to array
 		at, ok := v.elemType(x).Underlying().(*types.Array)
@@ -812,7 +821,7 @@ func (x *Exec) sliceOp(fr *Frame, st *State, i *ssa.Slice) Value {
 			hi = x.toU64(x.value(fr, i.High), i.High.Type())
 		}
 		x.safety(fr, st, "bounds", "slice", and("(bvule "+lo+" "+hi+")", "(bvule "+hi+" "+n+")"), i.Pos())
-		return x.nameValue(SliceV{Base: v.Base, Off: lo, Len: bvsub(hi, lo), Cap: bvsub(n, lo), Elem: at.Elem()}, i.Name())
+		return x.nameValue(SliceV{Base: v.Base, Off: lo, Len: bvsub(hi, lo), Cap: bvsub(n, lo), Elem: at.Elem(), New: v.New}, i.Name())
 	case Scalar:
 		if isString(v.Typ) {
 			n := "(slen " + v.T + ")"
@@ -871,14 +880,16 @@ func (x *Exec) elemLeaves(el types.Type, key string, out *[][2]string) {
 	*out = append(*out, [2]string{key, sortOf(el)})
 }
 
-// appendOp models append(s, e...): in place when it fits, a fresh array otherwise.
+// appendOp models append(s, e...): in place when it fits, a fresh array
+// otherwise. A fresh backing array is modelled as a copy of the old one with
+// the same offset (the shift is unobservable through slices), so the new
+// contents are "old contents with the appended window overwritten" in both
+// cases; only the base differs.
 func (x *Exec) appendOp(fr *Frame, st *State, s, e SliceV, pos token.Pos) Value {
-	z := bvLit(0, 64)
 	newLen := x.em.define("applen", "(_ BitVec 64)", bvadd(s.Len, e.Len))
 	fits := x.em.define("appfits", "Bool", "(bvule "+newLen+" "+s.Cap+")")
 	fresh := x.newRef(st)
 	rb := x.em.define("appbase", "Int", ite(fits, s.Base, fresh))
-	roff := x.em.define("appoff", "(_ BitVec 64)", ite(fits, s.Off, z))
 	ncap := x.em.freshConst("appcap", "(_ BitVec 64)")
 	x.em.assume(fmt.Sprintf("(and (bvule %s %s) (bvule %s %s))", newLen, ncap, ncap, maxCap))
 	rcap := x.em.define("appcap", "(_ BitVec 64)", ite(fits, s.Cap, ncap))
@@ -887,28 +898,24 @@ func (x *Exec) appendOp(fr *Frame, st *State, s, e SliceV, pos token.Pos) Value 
 	for _, lf := range leaves {
 		l := x.leaf(lf[0], 1, lf[1])
 		cur := x.heapGet(st, l)
-		inner := x.em.freshConst("appdata", l.InnerSort(0))
-		q := x.em.fresh("i")
 		olds := "(select " + cur + " " + s.Base + ")"
 		olde := "(select " + cur + " " + e.Base + ")"
-		// prefix preserved
-		x.em.assume(fmt.Sprintf("(forall ((%s (_ BitVec 64))) (! (=> (bvult %s %s) (= (select %s (bvadd %s %s)) (select %s (bvadd %s %s)))) :pattern ((select %s (bvadd %s %s)))))",
-			q, q, s.Len, inner, roff, q, olds, s.Off, q, inner, roff, q))
-		// appended elements
+		var inner string
 		if e.Len == bvLit(1, 64) {
-			x.em.assume(eq("(select "+inner+" "+bvadd(roff, s.Len)+")", "(select "+olde+" "+e.Off+")"))
+			inner = "(store " + olds + " " + bvadd(s.Off, s.Len) + " (select " + olde + " " + e.Off + "))"
 		} else {
+			inner = x.em.freshConst("appdata", l.InnerSort(0))
+			q := x.em.fresh("i")
 			x.em.assume(fmt.Sprintf("(forall ((%s (_ BitVec 64))) (! (=> (bvult %s %s) (= (select %s (bvadd %s (bvadd %s %s))) (select %s (bvadd %s %s)))) :pattern ((select %s (bvadd %s (bvadd %s %s))))))",
-				q, q, e.Len, inner, roff, s.Len, q, olde, e.Off, q, inner, roff, s.Len, q))
+				q, q, e.Len, inner, s.Off, s.Len, q, olde, e.Off, q, inner, s.Off, s.Len, q))
+			x.em.assume(fmt.Sprintf("(forall ((%s (_ BitVec 64))) (! (=> (not (and (bvule (bvadd %s %s) %s) (bvult %s (bvadd %s %s)))) (= (select %s %s) (select %s %s))) :pattern ((select %s %s))))",
+				q, s.Off, s.Len, q, q, s.Off, newLen, inner, q, olds, q, inner, q))
 		}
-		// in place: everything outside the appended window is unchanged
-		x.em.assume(fmt.Sprintf("(=> %s (forall ((%s (_ BitVec 64))) (! (=> (not (and (bvule (bvadd %s %s) %s) (bvult %s (bvadd %s %s)))) (= (select %s %s) (select %s %s))) :pattern ((select %s %s)))))",
-			fits, q, s.Off, s.Len, q, q, s.Off, newLen, inner, q, olds, q, inner, q))
 		st.Heap[lf[0]] = x.em.define("H.app", l.ArraySort(), "(store "+cur+" "+rb+" "+inner+")")
 		x.recordWrite(lf[0], rb, false)
 	}
 	_ = pos
-	return SliceV{Base: rb, Off: roff, Len: newLen, Cap: rcap, Elem: s.Elem}
+	return SliceV{Base: rb, Off: s.Off, Len: newLen, Cap: rcap, Elem: s.Elem, Own: nil}
 }
 
 func (x *Exec) copyOp(fr *Frame, st *State, d, s SliceV) Value {
@@ -965,4 +972,74 @@ func (x *Exec) doPanic(fr *Frame, st *State, msg string, pos token.Pos) {
 		return
 	}
 	x.safety(fr, st, "nopanic", msg, "false", pos)
+}
+
+// codeAccess applies the protected / onwrite hooks to a heap access made by code.
+func (x *Exec) codeAccess(fr *Frame, st *State, p Ptr, write bool, pos token.Pos) {
+	if x.pure > 0 || len(x.P.specs.Hooks) == 0 {
+		return
+	}
+	if p.Own != nil {
+		for _, h := range x.P.specs.Hooks {
+			if h.Elems && h.Key == p.Own.Key {
+				x.applyHook(fr, st, h, Ptr{Base: p.Own.Base, Root: p.Own.Root}, write, pos)
+			}
+		}
+		return
+	}
+	if p.Fresh || p.Root == nil {
+		return
+	}
+	_, key, _, err := typeAtPath(p.Root, p.Path)
+	if err != nil {
+		return
+	}
+	rk := rootKey(p.Root)
+	for _, h := range x.P.specs.Hooks {
+		if h.Elems || h.rootKey != rk {
+			continue
+		}
+		if key == h.Key || strings.HasPrefix(key, h.Key+".") || strings.HasPrefix(h.Key, key+".") || len(p.Path) == 0 {
+			x.applyHook(fr, st, h, Ptr{Base: p.Base, Root: p.Root}, write, pos)
+		}
+	}
+}
+
+func (x *Exec) applyHook(fr *Frame, st *State, h *Hook, this Ptr, write bool, pos token.Pos) {
+	env := x.newEnv(fr, st, nil)
+	env.noLocals = true
+	env.vars["this"] = this
+	if n, ok := this.Root.(*types.Named); ok && n.Obj().Pkg() != nil {
+		env.pkg = n.Obj().Pkg()
+	}
+	switch h.Kind {
+	case "protected":
+		if x.em.discard {
+			return
+		}
+		prop := x.evalBool(env, h.By)
+		k := "protected:" + h.Key
+		fr.occ[k]++
+		o := &Obligation{Name: fmt.Sprintf("%s/%s%s@%d", x.topKey, fr.prefix, k, fr.occ[k]), Kind: "protected", Guard: st.Reach, Prop: prop,
+			Pos: x.pos(pos), Src: h.Src, FnName: x.topKey, Inputs: x.inputs}
+		o.Props = append(o.Props, h.Props...)
+		x.em.oblige(o)
+	case "onwrite":
+		if !write {
+			return
+		}
+		x.setGhost(st, h.Ghost, x.evalExpr(env, h.Value))
+	}
+}
+
+func (x *Exec) setGhost(st *State, name string, v Value) {
+	l := x.ghostLeaf(name)
+	cur := x.heapGet(st, l)
+	g := x.P.specs.Ghosts[name]
+	gt := x.P.ghostType(g.Type)
+	if gt.Key == nil {
+		v = x.typed(v, gt.Base)
+	}
+	st.Heap[l.Key] = x.em.define("Hg."+name, l.ArraySort(), "(store "+cur+" 1 "+x.term(v)+")")
+	x.recordWrite(l.Key, "1", false)
 }
